@@ -34,6 +34,8 @@ uint8_t yk_sched[YK_MAXCTX];
 uint32_t yk_ctx_len[YK_MAXCTX];
 uint8_t yk_ctx_fin[YK_MAXCTX];
 uint8_t yk_done[YK_NT];
+uint32_t yk_thr_sleeps[YK_NT];
+uint8_t yk_parked[YK_NT];
 static uint32_t yk_fin_ctx[YK_NT];
 typedef int (*yk_thr_fn)(void);
 static yk_thr_fn yk_thr[YK_NT];
@@ -46,8 +48,8 @@ static void yk_one_context(uint32_t t)
     yk_hooks_in_ctx = 0;
     int r = yk_thr[t]();
     yk_cur = -1;
-    if (yk_nctx < YK_MAXCTX) { yk_sched[yk_nctx] = (uint8_t)t; yk_ctx_len[yk_nctx] = yk_hooks_in_ctx; yk_ctx_fin[yk_nctx] = r ? 0 : 1; }
-    if (!r) { yk_done[t] = 1; yk_fin_ctx[t] = yk_nctx; }
+    if (yk_nctx < YK_MAXCTX) { yk_sched[yk_nctx] = (uint8_t)t; yk_ctx_len[yk_nctx] = yk_hooks_in_ctx; yk_ctx_fin[yk_nctx] = (r && !yk_parked[t]) ? 0 : (yk_parked[t] ? 2 : 1); }
+    if (!r || yk_parked[t]) { yk_done[t] = 1; yk_fin_ctx[t] = yk_nctx; }
     yk_nctx++;
 }
 /* ctx symbolic contexts (which thread runs, where it is pre-empted), then a deterministic fair continuation: the
